@@ -24,6 +24,8 @@
 #include <shark/Algorithms/DirectSearch/Operators/Hypervolume/HypervolumeContributionApproximator.h>
 #include <shark/Models/Kernels/ArdKernel.h>
 #include <shark/Models/DropoutLayer.h>
+#include <shark/Models/Kernels/KernelExpansion.h>
+#include <shark/Models/RBFLayer.h>
 #include <shark/ObjectiveFunctions/Loss/SquaredLoss.h>
 #include <shark/ObjectiveFunctions/Loss/AbsoluteLoss.h>
 #include <shark/ObjectiveFunctions/KernelTargetAlignment.h>
@@ -374,6 +376,21 @@ int main(){
 			NegativeLogLikelihood nll(inputs, &dens);
 			sweepTol("NegativeLogLikelihood.eval", reps, [&]{ return std::vector<double>(1, nll.eval(dq)); });
 			sweepTol("NegativeLogLikelihood.evalDerivative", reps, [&]{ RealVector g; double v = nll.evalDerivative(dq, g); std::vector<double> r(1, v); for(std::size_t i = 0; i != g.size(); ++i) r.push_back(g(i)); return r; });
+		}
+		{	// a kernel inside a model inside the parallel error function (kernel expansion over the data set itself),
+			// and an RBF layer (its State holds the squared distances and responses) in front of a linear layer
+			GaussianRbfKernel<RealVector> gk2(0.125);
+			KernelExpansion<RealVector> ke(&gk2, inputs, true, 2);
+			RealVector kq(ke.numberOfParameters());
+			for(std::size_t i = 0; i != kq.size(); ++i) kq(i) = (double(rng.below(9)) - 4.0) / 8.0;
+			ErrorFunction<> EK(reg, &ke, &loss);
+			sweepTol("ErrorFunction[kernel-expansion(gaussian)].eval", reps, [&]{ return std::vector<double>(1, EK.eval(kq)); });
+			RBFLayer rbf(d, 3); LinearModel<> lout(3, 2, true);
+			ConcatenatedModel<RealVector> rbfnet = rbf >> lout;
+			RealVector rp(rbfnet.numberOfParameters());
+			for(std::size_t i = 0; i != rp.size(); ++i) rp(i) = (double(rng.below(9)) - 4.0) / 8.0;
+			ErrorFunction<> ERB(reg, &rbfnet, &loss);
+			sweepTol("ErrorFunction[rbf-layer-net].evalDerivative", reps, [&]{ RealVector g; double v = ERB.evalDerivative(rp, g); std::vector<double> r(1, v); r.push_back(ERB.eval(rp)); for(std::size_t i = 0; i != g.size(); ++i) r.push_back(g(i)); return r; });
 		}
 		{	// the same stateful network inside the WEIGHTED error function (a model with a non-empty State: every
 			// thread needs its own state object), classification and regression labels
